@@ -20,7 +20,6 @@ def run(ctx: CheckContext):
     analyse(ctx, p)
     ctx.floor("SCALE", 4)
     ctx.floor("SCALE-ROLE", 4)
-    ctx.floor("SCALE-GRAPH", 3)
     ctx.floor("INVAL-I1", 4)
     ctx.assumptions += [
         "decides temperature-scale coherence only; per-row integrals, the cold-curve offset and tolerances are numeric and NOT decided",
